@@ -544,10 +544,36 @@ def _sites(fn: _ast.AST, kind: str) -> List[_ast.AST]:
             out.append(n)
         elif kind == "wrap-else" and isinstance(n, _ast.If) and not n.orelse and n.body and isinstance(n.body[-1], (_ast.Return, _ast.Raise, _ast.Continue, _ast.Break)):
             out.append(n)
+        elif kind == "extract-temp" and isinstance(n, (_ast.Expr, _ast.Assign, _ast.Return)) and isinstance(getattr(n, "value", None), _ast.Call):
+            # first positional / keyword argument that is a pure, non-trivial expression
+            c = n.value
+            if any(isinstance(a, (_ast.Attribute, _ast.BinOp, _ast.Compare, _ast.BoolOp)) and _pure_expr(a) for a in list(c.args) + [k.value for k in c.keywords]) and _pure_expr(c.func):
+                out.append(n)
+        elif kind == "swap-adjacent" and isinstance(n, _ast.Assign) and len(n.targets) == 1 and isinstance(n.targets[0], _ast.Name) and _pure_expr(n.value):
+            out.append(n)
     return out
 
 
-REFACTOR_KINDS = ("invert-if", "return-temp", "flip-eq", "not-compare", "expand-aug", "wrap-else")
+REFACTOR_KINDS = ("invert-if", "return-temp", "flip-eq", "not-compare", "expand-aug", "wrap-else", "extract-temp", "swap-adjacent")
+
+_PURE_NODES = (_ast.Name, _ast.Constant, _ast.Attribute, _ast.BinOp, _ast.UnaryOp, _ast.Compare, _ast.BoolOp, _ast.Tuple, _ast.Load, _ast.operator, _ast.unaryop, _ast.cmpop, _ast.boolop, _ast.expr_context)
+
+
+def _pure_expr(e: _ast.AST) -> bool:
+    return all(isinstance(x, _PURE_NODES) for x in _ast.walk(e))
+
+
+def _block_of(fn: _ast.AST, st: _ast.AST) -> Optional[list]:
+    for par in _ast.walk(fn):
+        for fld in ("body", "orelse", "finalbody"):
+            blk = getattr(par, fld, None)
+            if isinstance(blk, list) and any(x is st for x in blk):
+                return blk
+        if isinstance(par, _ast.Try):
+            for h in par.handlers:
+                if any(x is st for x in h.body):
+                    return h.body
+    return None
 
 
 def refactor_jobs(root: str, only: Optional[str]) -> List[Tuple[str, str, str, str, int]]:
@@ -626,6 +652,39 @@ def _refactor_one(job: Tuple[str, Tuple[str, str, str, str, int]]) -> Dict[str, 
                             for h in par.handlers:
                                 if n in h.body:
                                     h.body[h.body.index(n)] = _ast.Assign(targets=[_ast.Name(id=n.target.id, ctx=_ast.Store())], value=_ast.BinOp(left=_ast.Name(id=n.target.id, ctx=_ast.Load()), op=n.op, right=n.value), lineno=n.lineno, col_offset=n.col_offset)
+                elif kind == "extract-temp":
+                    c = n.value
+                    blk = _block_of(fn, n)
+                    done = False
+                    if blk is not None:
+                        cand = [("a", i) for i, a in enumerate(c.args) if isinstance(a, (_ast.Attribute, _ast.BinOp, _ast.Compare, _ast.BoolOp)) and _pure_expr(a)] + \
+                               [("k", i) for i, k_ in enumerate(c.keywords) if isinstance(k_.value, (_ast.Attribute, _ast.BinOp, _ast.Compare, _ast.BoolOp)) and _pure_expr(k_.value)]
+                        kind_, i = cand[0]
+                        # only if nothing evaluated BEFORE that argument in the call can change it: earlier arguments must be pure too
+                        earlier = list(c.args[:i]) if kind_ == "a" else list(c.args) + [k_.value for k_ in c.keywords[:i]]
+                        if all(_pure_expr(e) for e in earlier):
+                            val = c.args[i] if kind_ == "a" else c.keywords[i].value
+                            tmp = _ast.Name(id="extracted_value", ctx=_ast.Load())
+                            if kind_ == "a":
+                                c.args[i] = tmp
+                            else:
+                                c.keywords[i].value = tmp
+                            j = [k_ for k_, x in enumerate(blk) if x is n][0]
+                            blk.insert(j, _ast.Assign(targets=[_ast.Name(id="extracted_value", ctx=_ast.Store())], value=val, lineno=n.lineno, col_offset=n.col_offset))
+                            done = True
+                elif kind == "swap-adjacent":
+                    blk = _block_of(fn, n)
+                    done = False
+                    if blk is not None:
+                        j = [k_ for k_, x in enumerate(blk) if x is n][0]
+                        if j + 1 < len(blk):
+                            o = blk[j + 1]
+                            if isinstance(o, _ast.Assign) and len(o.targets) == 1 and isinstance(o.targets[0], _ast.Name) and _pure_expr(o.value):
+                                n1 = {x.id for x in _ast.walk(n) if isinstance(x, _ast.Name)}
+                                n2 = {x.id for x in _ast.walk(o) if isinstance(x, _ast.Name)}
+                                if not (n1 & n2):
+                                    blk[j], blk[j + 1] = o, n
+                                    done = True
                 elif kind == "wrap-else":
                     # `if c: ...exit` followed by REST in the same block  ->  `if c: ...exit else: REST`
                     moved = False
